@@ -106,6 +106,32 @@ pub fn run(_tier: &str) -> Report {
         if verify_json(&keys, &o3).is_ok() {
             fail(&mut f_roundtrip, json!({"event": name, "why": "tampered content still verifies"}));
         }
+        // signing again with the same entity and key after the content changed (or over a bogus value under that key id)
+        // stores the signature of the CURRENT content: the stored value is exactly sign(canonical JSON)
+        for stale in [None, Some("AAAA")] {
+            let mut o4 = o.clone();
+            o4.insert("origin_server_ts".to_owned(), CanonicalJsonValue::Integer(77.into()));
+            if let Some(bogus) = stale {
+                if let Some(CanonicalJsonValue::Object(sigs)) = o4.get_mut("signatures") {
+                    if let Some(CanonicalJsonValue::Object(set)) = sigs.get_mut("a.org") {
+                        set.insert("ed25519:1".to_owned(), CanonicalJsonValue::String(bogus.to_owned()));
+                    }
+                }
+            }
+            sign_json("a.org", &a1, &mut o4).unwrap();
+            sign_json("a.org", &a2, &mut o4).unwrap();
+            sign_json("b.org", &b1, &mut o4).unwrap();
+            let want = {
+                use ruma_signatures::KeyPair;
+                a1.sign(ruma_signatures::canonical_json(&o4).unwrap().as_bytes()).base64()
+            };
+            let stored = o4.get("signatures").and_then(|s| s.as_object()).and_then(|s| s.get("a.org")).and_then(|s| s.as_object())
+                .and_then(|s| s.get("ed25519:1")).and_then(|s| s.as_str()).map(|s| s.to_owned());
+            if stored.as_deref() != Some(want.as_str()) || verify_json(&keys, &o4).is_err() {
+                fail(&mut f_roundtrip, json!({"event": name, "why": "signing again with the same key did not store the signature of the current content",
+                    "stored": stored, "expected": want, "stale_value_before": stale}));
+            }
+        }
         // a signing call that reports an error leaves the object as it was
         for bad in [json!("str"), json!({"a.org": "not-an-object"})] {
             let mut e = obj(ev.clone());
